@@ -39,3 +39,79 @@ chk('C15', 'exploration',
     'stateful property-based testing (Hypothesis-generated open histories) '
     'against empty-history references',
     'DESIGN.md 7 C15')
+chk('C12', 'exploration',
+    'Generated-input search over CF reference-date spellings x units x '
+    'calendars x values and IOAPI time encodings, compared with exact '
+    'rational/integer calendar arithmetic (vf/ref/caltime.py) and, for the '
+    'fixed-length calendars, cross-checked against cftime on every case; '
+    'inverses date2num/time2idx checked; thorough enumerates EVERY IOAPI '
+    '(year 1970-2100, day, hour) start (exhaustive for that sub-domain). A '
+    'raise of the decoder is a pass by the statement.',
+    'stdlib datetime and cftime are trusted; reference dates 1900-2100; '
+    'descending time axes are exercised under C16; one known finding '
+    '(coordutil.gettimes ignores the calendar) is listed in '
+    'known_findings.json.',
+    'property-based testing (Hypothesis) against independent calendar '
+    'arithmetic + exhaustive enumeration of IOAPI start dates/hours',
+    'DESIGN.md 7 C12')
+chk('C16', 'exploration',
+    'Generated coordinates (both directions, uniform/non-uniform, three '
+    'bounds representations, f8/f4/i4) x all method/bounds/clean/left/right '
+    'options x queries at centres, edges, midpoints and 1 ulp either side, '
+    'judged by a brute-force search over cells with stated accepted sets on '
+    'ties; all small grids (n<=4) enumerated.',
+    'IEEE double comparisons are the reference; queries within 1 ulp of a '
+    'decision point may go to either neighbour (stated tolerance); masked '
+    'coordinates not generated.',
+    'property-based testing (Hypothesis) against a brute-force oracle + '
+    'enumeration of small grids',
+    'DESIGN.md 7 C16')
+chk('C17', 'exploration',
+    'Generated source/target coordinates and fields: algebraic laws of the '
+    'weight matrix (non-negativity, column sums, linear exactness, identity) '
+    'and agreement of interpDimension / coordkey form / sigma2coeff / '
+    'interpSigma with an independent piecewise-linear and '
+    'thickness-weighted reference, along every axis position of rank 1-4 '
+    'variables.',
+    'float64 with dyadic inputs, tolerance 1e-9 (1e-6 for conservative '
+    'integrals as stated); masked fields and the bpch/gcnc copies of '
+    'interpSigma not generated.',
+    'property-based testing (Hypothesis): algebraic laws + independent '
+    'reference interpolation',
+    'DESIGN.md 7 C17')
+chk('C18', 'exploration',
+    'Generated bpch files (time blocks x categories x tracers, layer '
+    'counts, nested offsets, tracerinfo/diaginfo tables, arbitrary REAL*4 '
+    'bit patterns) are encoded by an independent struct-only codec, read by '
+    'both library readers, rewritten and compared byte for byte / value for '
+    'value; all (blocks, categories, tracers) counts in 1..3 enumerated.',
+    'vf/ref/bpch_ref.py is the trusted reference (validated at setup against '
+    'the repository sample and the literals of its tests); every category '
+    'and tracer has a table row.',
+    'property-based testing (Hypothesis) with an independent reference codec:'
+    ' round trip + differential (bpch1 vs bpch2)',
+    'DESIGN.md 7 C18')
+chk('C19', 'exploration',
+    'Generated 1-D time-series files written to ICARTT text, parsed by an '
+    'independent line reader (declared vs actual header and column counts), '
+    're-read by the library (names, order, units, missing codes, masks, '
+    'values to 7 significant digits), re-opened by auto-detection, and put '
+    'through a second write/read cycle that must change nothing.',
+    'masked inputs carry fill_value == missing_value; single-line header '
+    'attributes; LLOD/ULOD keywords not generated.',
+    'property-based testing (Hypothesis): write/read round trip + '
+    'independent text parser',
+    'DESIGN.md 7 C19')
+chk('C20', 'exploration',
+    'Generated REAL*4 fields incl. adversarial constructions at power-of-two '
+    'boundaries and carried half steps: every packed byte is compared with '
+    'an independent re-computation of the ARL formula in unwrapped integers, '
+    'the round-trip error with the bound of the recorded exponent, checksum '
+    'and precision with the header; generated lat-lon ARL files are read by '
+    'the library and the library writer output decoded by the reference.',
+    'vf/ref/arl_ref.py (PAKOUT/PAKINP re-implemented with REAL*4 rounding, '
+    'anchored on hand-computed examples; the repository ships no ARL '
+    'sample); projected grids need pyproj (absent) and are not generated.',
+    'property-based testing (Hypothesis) with an independent reference codec '
+    '+ enumeration of carry constructions',
+    'DESIGN.md 7 C20')
